@@ -337,6 +337,7 @@ def concurrent(chk, rng, n_random, n_dfs, tag):
         model_regs = parts[0]
         model_done = sorted(p for p in parts[1].split(" left=")[0].split() if p.startswith("done:")) if len(parts) > 1 else []
         impl_done = sorted("done:%d:%d" % p for l in res["issued"].values() for p in l)
+        chk.traces_validated += 1
         if model_regs != "%s %s" % (want_h, want_e) or model_done != impl_done:
             chk.corr_break("concurrent-identifier-history", dict(inp, schedule=res["schedule"]),
                            "%s %s %s" % (want_h, want_e, impl_done), o[:300])
